@@ -14,6 +14,7 @@ import (
 	"sort"
 	"strconv"
 	"strings"
+	"sync"
 	"sync/atomic"
 	"time"
 
@@ -43,7 +44,7 @@ func (r *Rng) Intn(n int) int {
 	}
 	return int(r.U64() % uint64(n))
 }
-func (r *Rng) Bool() bool           { return r.U64()&1 == 1 }
+func (r *Rng) Bool() bool              { return r.U64()&1 == 1 }
 func (r *Rng) Pick(xs []string) string { return xs[r.Intn(len(xs))] }
 func (r *Rng) Bytes(n int) []byte {
 	b := make([]byte, n)
@@ -65,7 +66,11 @@ func hx(b []byte) string {
 }
 func hs(s string) string { return hx([]byte(s)) }
 
+var emitMu sync.Mutex
+
 func emit(fields ...string) {
+	emitMu.Lock()
+	defer emitMu.Unlock()
 	out.WriteString(strings.Join(fields, "\t"))
 	out.WriteByte('\n')
 }
